@@ -23,15 +23,28 @@ round-half-even of that exact value, text is `List Char`)
   closed polyline, order, swap                           polyline_closed, polyline_swap
   sample / design conditions as supplied                 scatter_spec, design_conditions_as_supplied,
                                                          design_conditions_old_counterexample (defect #13)
-  other plots draw the leaf values unmodified            curve_values  (the leaf - pdf, dependence
-                                                         function - is an uninterpreted function; that
-                                                         the arrays handed to matplotlib are this curve
-                                                         is observed by the correspondence check)
-  reader: every row, in order, time stamp as index       reader_rows_in_order, parseStamp_fmtStamp
+  other plots draw the leaf values unmodified            curve_values  — PARTIAL with respect to the clause: the
+                                                         theorem is about the model curve of an uninterpreted
+                                                         leaf (pdf, dependence function); that the arrays the
+                                                         real functions hand to matplotlib ARE this curve, that
+                                                         the per-interval estimates / histogram data / QQ
+                                                         ordinates are the stored values, and everything about
+                                                         labels, legends and automatic isodensity levels is
+                                                         observed per run by the harness (`ck.partial`), not
+                                                         proven. No theorem exists for histogram data or
+                                                         marginal quantiles.
+  reader: every row, in order, time stamp as index       reader_lines_in_order (ANY text: any padding, blank
+                                                         lines, with/without final newline),
+                                                         reader_returns_every_line (converse: nothing dropped,
+                                                         merged, reordered), reader_crlf (Windows line ends),
+                                                         reader_rows_in_order + parseBenchRow_padded (a rendered
+                                                         benchmark row, any padding, parses to itself),
+                                                         parseStamp_fmtStamp
 
-Everything is proven for all inputs (induction on rows / digits / paths); no clause is `_partial`.
+The save / polyline / scatter / design-condition / reader clauses are proven for all inputs
+(induction on rows / digits / paths); the "other plot functions" clause is partial as said above.
 What is *not* a theorem and is tied by the correspondence check on every run: that the model's
-`saveText` / `savePath` / `closePolyline` / `readBenchmark` / `linspaceEndF` compute what the
+`saveText` / `savePath` / `closePolyline` / `readBenchmarkU` / `linspaceEndF` compute what the
 Python code (numpy's savetxt, os.path.splitext, matplotlib, pandas.read_csv) computes.
 -/
 import VirVerif.Model.Export
@@ -924,6 +937,144 @@ theorem reader_rows_in_order (c0 : Str) (cols : List Str) (rows : List (Stamp ×
   simp
 
 
+/-! the reader on ARBITRARY files, Windows line ends, any padding after the separators -/
+
+theorem mapM_forall2 {α β : Type} (f : α → Option β) (ls : List α) (rs : List β)
+    (h : List.Forall₂ (fun l r => f l = some r) ls rs) : ls.mapM f = some rs := by
+  induction h with
+  | nil => rfl
+  | cons hab _ ih => rw [List.mapM_cons, hab, ih]; rfl
+
+/-- **reader_lines_in_order.**  For ANY text (any separator padding, blank lines anywhere, with or
+without final newline): if `hdr :: ls` are its non-blank lines in file order and every data line
+`l` parses (valid stamp, one decimal per data column) to `r`, the reader returns the header's
+column names and exactly these rows, one per data line, in file order. -/
+theorem reader_lines_in_order (text hdr : Str) (ls : List Str) (rs : List (Stamp × List Dec))
+    (hlines : (splitOn '\n' text).filter (· ≠ []) = hdr :: ls)
+    (hrows : List.Forall₂ (fun l r => parseBenchRow (fields hdr).length l = some r) ls rs) :
+    readBenchmark text = some (fields hdr, rs) := by
+  unfold readBenchmark
+  rw [hlines]
+  simp only []
+  rw [mapM_forall2 _ ls rs hrows]
+  rfl
+
+/-- conversely, whatever the reader returns has one row per non-blank data line, in order, each the
+parse of that line; nothing is dropped, merged or reordered -/
+theorem reader_returns_every_line (text : Str) (cols : List Str) (rs : List (Stamp × List Dec))
+    (h : readBenchmark text = some (cols, rs)) :
+    ∃ hdr ls, (splitOn '\n' text).filter (· ≠ []) = hdr :: ls ∧ cols = fields hdr ∧
+      ls.mapM (parseBenchRow cols.length) = some rs ∧ rs.length = ls.length := by
+  unfold readBenchmark at h
+  split at h
+  · exact absurd h (by simp)
+  · rename_i hdr ls heq
+    simp only [Option.map_eq_some_iff] at h
+    obtain ⟨rs', hm, hp⟩ := h
+    have h1 : fields hdr = cols := (Prod.mk.inj hp).1
+    have h2 : rs' = rs := (Prod.mk.inj hp).2
+    subst h1 h2
+    refine ⟨hdr, ls, heq, rfl, hm, ?_⟩
+    have : ∀ (l : List Str) (r : List (Stamp × List Dec)),
+        l.mapM (parseBenchRow (fields hdr).length) = some r → r.length = l.length := by
+      intro l
+      induction l with
+      | nil => intro r hr; simp at hr; simp [← hr]
+      | cons a l ih =>
+        intro r hr
+        rw [List.mapM_cons] at hr
+        cases ha : parseBenchRow (fields hdr).length a with
+        | none => simp [ha] at hr
+        | some x =>
+          cases hl : l.mapM (parseBenchRow (fields hdr).length) with
+          | none => simp [ha, hl] at hr
+          | some y =>
+            simp [ha, hl] at hr
+            subst hr
+            simp [ih y hl]
+    exact this ls rs' hm
+
+theorem stripInitial_replicate (k : Nat) (f : Str) (h : f.head? ≠ some ' ') :
+    stripInitial (List.replicate k ' ' ++ f) = f := by
+  induction k with
+  | zero => simpa using stripInitial_of_head f h
+  | succ k ih =>
+    have : stripInitial (' ' :: (List.replicate k ' ' ++ f)) = stripInitial (List.replicate k ' ' ++ f) := by
+      simp [stripInitial]
+    rw [List.replicate_succ, List.cons_append, this, ih]
+
+/-- the fields of a line are the pieces it was built from, whatever number of blanks follows
+each `;` -/
+theorem fields_padLine (f : Str) (rest : List (Nat × Str))
+    (h : ∀ g ∈ f :: rest.map Prod.snd, ';' ∉ g ∧ g.head? ≠ some ' ') :
+    fields (padLine f rest) = f :: rest.map Prod.snd := by
+  unfold fields padLine
+  rw [splitOn_joinSep _ _ (by simp)]
+  · rw [List.map_cons, stripInitial_of_head f (h f (by simp)).2, List.map_map]
+    congr 1
+    apply List.map_congr_left
+    intro p hp
+    exact stripInitial_replicate p.1 p.2 (h p.2 (by simp; exact Or.inr ⟨p.1, hp⟩)).2
+  · intro g hg
+    simp only [List.mem_cons, List.mem_map] at hg
+    rcases hg with rfl | ⟨p, hp, rfl⟩
+    · exact (h _ (by simp)).1
+    · intro hm
+      rcases List.mem_append.mp hm with hm | hm
+      · exact absurd (List.eq_of_mem_replicate hm) (by decide)
+      · exact (h p.2 (by simp; exact Or.inr ⟨p.1, hp⟩)).1 hm
+
+/-- a data line with any padding parses to the row it was rendered from -/
+theorem parseBenchRow_padded (n : Nat) (r : Stamp × List Dec) (pads : List Nat)
+    (hv : r.1.valid = true) (hw : r.2.length + 1 = n) (hp : pads.length = r.2.length) :
+    parseBenchRow n (padLine (fmtStamp r.1) (pads.zip (r.2.map fmtDec))) = some r := by
+  have hsnd : (pads.zip (r.2.map fmtDec)).map Prod.snd = r.2.map fmtDec :=
+    List.map_snd_zip (by simp [hp])
+  unfold parseBenchRow
+  rw [fields_padLine _ _ (by rw [hsnd]; exact fun g hg => (rowFields_ok r g hg).1), hsnd]
+  simp only [List.length_map]
+  rw [if_pos hw, parseStamp_fmtStamp _ hv,
+    mapM_map_some parseDecimal fmtDec id r.2 (fun x _ => parseDecimal_fmtDec x)]
+  simp
+
+theorem normalizeEol_of_no_cr (t : Str) (h : '\r' ∉ t) : normalizeEol t = t := by
+  induction t with
+  | nil => rfl
+  | cons c t ih =>
+    have hc : c ≠ '\r' := fun e => h (by simp [e])
+    have ht : '\r' ∉ t := fun m => h (List.mem_cons_of_mem _ m)
+    show eolStep c (normalizeEol t) = c :: t
+    rw [ih ht]
+    simp [eolStep, hc]
+
+theorem normalizeEol_toCRLF (t : Str) (h : '\r' ∉ t) : normalizeEol (toCRLF t) = t := by
+  induction t with
+  | nil => rfl
+  | cons c t ih =>
+    have hc : c ≠ '\r' := fun e => h (by simp [e])
+    have ht : '\r' ∉ t := fun m => h (List.mem_cons_of_mem _ m)
+    by_cases hn : c = '\n'
+    · subst hn
+      show normalizeEol (if '\n' = '\n' then '\r' :: '\n' :: toCRLF t else '\n' :: toCRLF t) = '\n' :: t
+      rw [if_pos rfl]
+      show eolStep '\r' (eolStep '\n' (normalizeEol (toCRLF t))) = '\n' :: t
+      rw [ih ht]
+      simp [eolStep]
+    · show normalizeEol (if c = '\n' then '\r' :: '\n' :: toCRLF t else c :: toCRLF t) = c :: t
+      rw [if_neg hn]
+      show eolStep c (normalizeEol (toCRLF t)) = c :: t
+      rw [ih ht]
+      simp [eolStep, hc]
+
+/-- **reader_crlf.**  A file stored with Windows line ends reads exactly like the same file with
+`\n` line ends (and `readBenchmarkU` is `readBenchmark` on files without `\r`): all reader theorems
+carry over. -/
+theorem reader_crlf (text : Str) (h : '\r' ∉ text) :
+    readBenchmarkU (toCRLF text) = readBenchmark text ∧ readBenchmarkU text = readBenchmark text := by
+  unfold readBenchmarkU
+  rw [normalizeEol_toCRLF text h, normalizeEol_of_no_cr text h]
+  exact ⟨rfl, rfl⟩
+
 /-! design conditions argument of `plot_2D_contour` (defect #13) -/
 
 /-- **design conditions as supplied**: an array argument is drawn point for point, unchanged,
@@ -960,5 +1111,15 @@ example : valOfBits 4602678819172646912 = .fin false (2 ^ 52) (2 ^ 53) ∧
 example : closePolyline true [(1, 2), (3, 4)] = some [(2, 1), (4, 3), (2, 1)] := rfl
 
 example : (⟨1996, 2, 29, 23⟩ : Stamp).valid = true := by decide
+
+-- Windows line ends, three blanks after a separator, a blank line, no final newline
+example : readBenchmarkU "t; a\r\n2001-03-04-05;   1.5\r\n\r\n2001-03-04-04;-2".toList =
+    some (["t".toList, "a".toList],
+      [(⟨2001, 3, 4, 5⟩, [.fin false 15 1]), (⟨2001, 3, 4, 4⟩, [.fin true 2 0])]) := by decide
+
+example : toCRLF "a\nb\n".toList = "a\r\nb\r\n".toList ∧
+    normalizeEol "a\r\nb\r\n".toList = "a\nb\n".toList := by decide
+
+example : padLine "x".toList [(2, "y".toList), (0, "z".toList)] = "x;  y;z".toList := by decide
 
 end VirVerif.C20
